@@ -293,12 +293,13 @@ func isStringish(t *Term) bool {
 }
 
 type explorer struct {
-	P      *Program
-	cfg    ExploreConfig
-	out    *Exploration
-	work   []*state
-	steps  int
-	curCtx *Term
+	P           *Program
+	cfg         ExploreConfig
+	out         *Exploration
+	work        []*state
+	steps       int
+	curCtx      *Term
+	storedCache map[*ssa.Function]map[string]bool
 }
 
 // argDriven: a narrowed inline policy (storage-reaching, small helpers, ...)
@@ -1671,6 +1672,27 @@ func (x *explorer) opaque(st *state, fr *frame, name string, obj *types.Func, st
 			}
 		}
 	}
+	// a source function that is not traversed may rewrite fields of the objects it can reach: the
+	// bindings memory holds for the fields it (or its static callees, two levels) stores to are
+	// replaced by a fresh value owned by this call
+	if static != nil && len(static.Blocks) > 0 {
+		if fs := x.storedFields(static); len(fs) > 0 {
+			for k := range st.mem {
+				var rest string
+				switch {
+				case strings.HasPrefix(k, "addr:"):
+					rest = k[len("addr:"):]
+				case strings.HasPrefix(k, "getter:.Get"):
+					rest = k[len("getter:.Get"):]
+				default:
+					continue
+				}
+				if i := strings.IndexByte(rest, '('); i > 0 && fs[rest[:i]] {
+					st.mem[k] = &Term{Op: "out", Name: rest[:i], Args: []*Term{t}}
+				}
+			}
+		}
+	}
 	x.event(st, fr, &Event{Kind: "call", Name: name, Callee: obj, StaticFn: static, Recv: recv, Args: args, Result: t, Instr: instr, Invoke: invoke})
 	// Set<X>(v) on a receiver makes Get<X>() return v afterwards
 	if recv != nil && strings.HasPrefix(name, ".Set") && len(name) > 4 {
@@ -1814,4 +1836,46 @@ func isPureCall(pkg, name string, obj *types.Func, sig *types.Signature) bool {
 		return true
 	}
 	return false
+}
+
+// storedFields: names of struct fields the function stores to through a pointer
+// that is not a fresh local allocation (its own or, two levels deep, its static callees').
+func (x *explorer) storedFields(fn *ssa.Function) map[string]bool {
+	if x.storedCache == nil {
+		x.storedCache = map[*ssa.Function]map[string]bool{}
+	}
+	if v, ok := x.storedCache[fn]; ok {
+		return v
+	}
+	out := map[string]bool{}
+	x.storedCache[fn] = out
+	var rec func(f *ssa.Function, depth int)
+	seen := map[*ssa.Function]bool{}
+	rec = func(f *ssa.Function, depth int) {
+		if seen[f] {
+			return
+		}
+		seen[f] = true
+		for _, b := range f.Blocks {
+			for _, ins := range b.Instrs {
+				switch v := ins.(type) {
+				case *ssa.Store:
+					if fa, ok := v.Addr.(*ssa.FieldAddr); ok {
+						if _, fresh := fa.X.(*ssa.Alloc); !fresh {
+							out[fieldNameOf(fa.X.Type(), fa.Field)] = true
+						}
+					}
+				case ssa.CallInstruction:
+					if cal := v.Common().StaticCallee(); cal != nil && depth < 2 && len(cal.Blocks) > 0 {
+						rec(cal, depth+1)
+					}
+				}
+			}
+		}
+		for _, an := range f.AnonFuncs {
+			rec(an, depth)
+		}
+	}
+	rec(fn, 0)
+	return out
 }
